@@ -140,7 +140,7 @@ ReqsOf(f) == pre.ctx[pre.feeds[f].ctx].reqs
 Probes ==
   IF ev.name = "Init" THEN {} ELSE
   (IF ev.name = "Respond" /\ ev.pay # "" THEN {"pay_" \o ev.pay} ELSE {}) \cup
-  {c \in {"pay_zero_counts", "odd_prov_ok", "odd_prov_rej", "bad_name_rej", "case_twin_ok", "unknown_name_cmd",
+  {c \in {"pay_zero_counts", "odd_prov_ok", "odd_prov_rej", "bad_prov_create_rej", "bad_prov_edit_rej", "bad_name_rej", "case_twin_ok", "unknown_name_cmd",
           "cap_denom_rej", "respond_stranger", "respond_expiry_block", "respond_late", "respond_twice",
           "complete_after_edit", "nested_path", "index_path", "create_invalid", "create_by_prov",
           "svc_name_rej", "agg_case_rej"} :
@@ -148,6 +148,9 @@ Probes ==
        [] c = "odd_prov_ok" -> ev.name \in {"CreateFeed", "EditFeed"} /\ ev.ok /\ OddProv(ev.provs)
        [] c = "odd_prov_rej" -> ev.name \in {"CreateFeed", "EditFeed"} /\ ~ev.ok /\ OddProv(ev.provs)
                                   /\ Apply(pre, ev).why = "duplicate_providers"
+       [] c = "bad_prov_create_rej" -> ev.name = "CreateFeed" /\ ~ev.ok /\ HasBadProv(ev.provs)
+       [] c = "bad_prov_edit_rej" -> ev.name = "EditFeed" /\ ~ev.ok /\ HasBadProv(ev.provs)
+                                  /\ ev.feed \in DOMAIN pre.feeds /\ ev.who = pre.feeds[ev.feed].creator
        [] c = "bad_name_rej" -> ev.name = "CreateFeed" /\ ev.feed \in BadFeedNames
        [] c = "case_twin_ok" -> ev.name = "CreateFeed" /\ ev.ok /\ ev.feed = "FA" /\ "fa" \in DOMAIN pre.feeds
        [] c = "unknown_name_cmd" -> ev.name \in {"StartFeed", "PauseFeed", "EditFeed", "Respond", "SvcDirect"}
